@@ -423,7 +423,12 @@ impl Check for RwCheck {
             let n = w.range(0, 4);
             for _ in 0..n {
                 let a = random_la(&mut w, &[0, 1], 2, &mut binder);
-                let b = random_la(&mut w, &[0, 1], 2, &mut binder);
+                let mut b = random_la(&mut w, &[0, 1], 2, &mut binder);
+                if w.chance(1, 3) {
+                    // self-referential equation a = f(a, ..)
+                    let name = if w.chance(1, 2) { "add" } else { "mul" };
+                    b = if w.chance(1, 2) { Tm::node(name, vec![], vec![(vec![], a.clone()), (vec![], b)]) } else { Tm::node(name, vec![], vec![(vec![], b), (vec![], a.clone())]) };
+                }
                 let pos = w.below(run.ops.len() + 1);
                 run.ops.insert(pos, Op::new("union").t(a).t(b).i(w.below(2) as i64));
             }
